@@ -154,6 +154,8 @@ var (
 	hbSeen   *keySet
 	prunedAt int32
 	hbPrune  bool
+	costP    uint8 // preemptions spent so far in this execution
+	costE    uint8 // environment deviations spent so far
 
 	// leaked counts goroutines abandoned by fatal outcomes (reported in evidence).
 	leaked int
@@ -373,8 +375,13 @@ func schedule() {
 	}
 	nsteps++
 
+	if t.kind != KEnv && curEn && choice > 0 {
+		costP++
+	}
+
 	if hbSeen != nil && prunedAt < 0 && nsteps >= nprefix {
-		if hbSeen.insert(key) && hbPrune {
+		// the future also depends on who is running (continuing it is free) and on what was spent
+		if hbSeen.insert(mix(key, uint64(chosen)+1), costP+16*costE) && hbPrune {
 			prunedAt = nsteps
 		}
 	}
@@ -738,6 +745,7 @@ func resetExec() {
 	nsteps = 0
 	nprefix = 0
 	prunedAt = -1
+	costP, costE = 0, 0
 	exDeadlock, exHorizon, exNondet, exPanic, exPanicStack, exUnsupp = false, false, false, nil, "", ""
 	exNondetStep = 0
 
